@@ -90,7 +90,7 @@ def job_for(d, name, header="main.h"):
 
 # ---------------------------------------------------------------- child processes
 
-def run_child(req, plan_lines, workdir, tag, timeout=120, uid=None, seed_env=None):
+def run_child(req, plan_lines, workdir, tag, timeout=120, uid=None, seed_env=None, stdin_text=None):
     """One scenario = one process. Returns (observation, fired) where fired is
     the list of faults the shim actually injected."""
     reqf = os.path.join(workdir, f"{tag}.req.json")
@@ -113,7 +113,9 @@ def run_child(req, plan_lines, workdir, tag, timeout=120, uid=None, seed_env=Non
         cmd = ["setpriv", f"--reuid={uid}", f"--regid={uid}", "--clear-groups"] + cmd
     t0 = time.time()
     try:
-        p = subprocess.run(cmd, env=env, cwd=workdir, stdout=subprocess.PIPE, stderr=subprocess.PIPE, timeout=timeout)
+        p = subprocess.run(cmd, env=env, cwd=workdir, stdout=subprocess.PIPE, stderr=subprocess.PIPE, timeout=timeout,
+                           input=(stdin_text.encode() if stdin_text is not None else None),
+                           stdin=(None if stdin_text is not None else subprocess.DEVNULL))
         out = p.stdout.decode("utf-8", "replace").strip().splitlines()
         obs = None
         for line in reversed(out):
@@ -148,7 +150,7 @@ def run_children(scenarios, workdir, workers=None):
     workers = workers or NCPU
     with concurrent.futures.ThreadPoolExecutor(max_workers=workers) as ex:
         futs = [ex.submit(run_child, s["req"], s.get("plan", []), workdir, s["tag"], s.get("timeout", 120),
-                          s.get("uid")) for s in scenarios]
+                          s.get("uid"), None, s.get("stdin_text")) for s in scenarios]
         return [f.result() for f in futs]
 
 
@@ -342,6 +344,32 @@ def output_path_states(root):
     return states
 
 
+MEM_TEXT = "#define WORDS (sizeof(long) / sizeof(int))\n#define PLAIN 7\nstruct Mem { int m[PLAIN]; };\nstatic inline int dbl(int x) { return 2 * x; }\n"
+
+
+def memory_input_states(root):
+    """Inputs that are not (only) files on disk: `header_contents`, mixed with
+    on-disk headers, and a header read from a pipe. All are inputs clang
+    accepts; each must give bindings."""
+    d = os.path.join(root, "mem")
+    os.makedirs(d, exist_ok=True)
+    disk = os.path.join(d, "disk.h")
+    # in-memory contents are handed to clang as `-include`, i.e. they precede the on-disk main header
+    with open(disk, "w") as f:
+        f.write("struct OnDisk { struct Mem m; int tail; };\n")
+    base = list(BASE_FLAGS)
+    states = []
+    for name, flags in (("plain", []), ("macro-fallback", ["--clang-macro-fallback", "--clang-macro-fallback-build-dir", d]),
+                        ("inline-fns", ["--generate-inline-functions"])):
+        states.append((f"contents-only-{name}", {"contents": [["mem.h", MEM_TEXT]], "flags": base + flags}, None))
+        states.append((f"contents-two-{name}", {"contents": [["a.h", "typedef int a_t;\n"], ["mem.h", MEM_TEXT]], "flags": base + flags}, None))
+        states.append((f"contents-then-disk-{name}", {"headers": [disk], "contents": [["mem.h", MEM_TEXT]], "flags": base + flags}, None))
+    states.append(("stdin-pipe", {"header": "/dev/stdin", "flags": base + ["--", "-x", "c"]}, "int from_pipe(int x);\nstruct Piped { int p; };\n"))
+    states.append(("stdin-pipe-large", {"header": "/dev/stdin", "flags": base + ["--", "-x", "c"]},
+                   "".join(f"struct P{i} {{ int v{i}; }};\n" for i in range(3000))))
+    return states
+
+
 def config_states():
     """Unsupported edition/target pairs must yield their error value."""
     return [("edition2024-on-1.70", ["--rust-target", "1.70", "--rust-edition", "2024"], "UnsupportedEdition"),
@@ -462,6 +490,24 @@ def run(tier, seed):
             if v:
                 record(dict(v, state=tag, tier="config"), {"kind": "config", "flags": flags, "expect": expect,
                                                           "observed": obs})
+
+        # ---------------------------------------------------- in-memory and stream inputs
+        ms = memory_input_states(root)
+        scen = [{"req": {"op": "gen", "job": dict(spec, id=tag), "arm_steps": True, "want_text": tag.startswith("stdin")},
+                 "tag": f"mem-{tag}", "stdin_text": stdin, "timeout": 60} for tag, spec, stdin in ms]
+        res = run_children(scen, work)
+        for (tag, spec, stdin), (obs, fired) in zip(ms, res):
+            scen_total += 1
+            distinct.add(("memory-input", tag, obs.get("kind")))
+            outcomes[obs.get("kind")] = outcomes.get(obs.get("kind"), 0) + 1
+            v = classify(obs, ["mem"], None, expect="OK")
+            if not v and stdin is not None and ("Piped" if "large" not in tag else "P2999") not in (obs.get("text") or ""):
+                v = {"class": "bindings-incomplete"}
+            if v:
+                sig = dict(v, state=tag, tier="memory-input")
+                sig.pop("message", None)
+                obs.pop("text", None)
+                record(sig, {"kind": "memory", "state": tag, "observed": obs})
 
         # ---------------------------------------------------- output paths that cannot be written
         ops = output_path_states(root)
@@ -666,6 +712,17 @@ def replay(doc):
                     v = classify(obs, ["static"], None, expect=expect)
                     return bool(v) and v["class"] == doc["signature"]["class"], {"observed": obs}
             raise HarnessError("unknown static state")
+        if kind == "memory":
+            for tag, spec, stdin in memory_input_states(root):
+                if tag == doc["state"]:
+                    obs, fired = run_child({"op": "gen", "job": dict(spec, id=tag), "arm_steps": True, "want_text": True}, [], work,
+                                           "replay", timeout=60, stdin_text=stdin)
+                    v = classify(obs, ["mem"], None, expect="OK")
+                    if not v and stdin is not None and ("Piped" if "large" not in tag else "P2999") not in (obs.get("text") or ""):
+                        v = {"class": "bindings-incomplete"}
+                    obs.pop("text", None)
+                    return bool(v) and v["class"] == doc["signature"]["class"], {"observed": obs}
+            raise HarnessError("unknown memory-input state")
         if kind == "output":
             for tag, h, fl in output_path_states(root):
                 if tag == doc["state"]:
